@@ -224,16 +224,18 @@ func (p *processor) doActions(event *Event) (isPassed bool, lastAction int) {
 		case ActionDiscard:
 			p.countEvent(event, index, eventStatusDiscarded)
 			p.tryResetBusy(index)
+			// sample the event before it goes back to the pool
+			p.actionWatcher.setEventAfter(index, event, eventStatusDiscarded)
 			// can't notify input here, because previous events may delay, and we'll get offset sequence corruption.
 			p.finalize(event, false, true)
-			p.actionWatcher.setEventAfter(index, event, eventStatusDiscarded)
 			return false, index
 		case ActionCollapse:
 			p.countEvent(event, index, eventStatusCollapse)
 			p.tryMarkBusy(index)
+			// sample the event before it goes back to the pool
+			p.actionWatcher.setEventAfter(index, event, eventStatusCollapse)
 			// can't notify input here, because previous events may delay, and we'll get offset sequence corruption.
 			p.finalize(event, false, true)
-			p.actionWatcher.setEventAfter(index, event, eventStatusCollapse)
 			return false, index
 		case ActionHold:
 			p.countEvent(event, index, eventStatusHold)
